@@ -1031,6 +1031,9 @@ def trajectory_test(run, rng, count):
         {"n": 2, "gates": [["RX", [0], [0.5]], ["H", [1]], ["chan", "depol", [1], 2], ["RX", [0], [1.5]]]},
         {"n": 2, "gates": [["H", [0]], ["S", [0]], ["chan", "depol", [1], 3], ["CNOT", [0, 1]]]},
         {"n": 3, "gates": [["H", [1]], ["S", [1]], ["RX", [0], [0.5]], ["chan", "depol", [0, 2], 1], ["CZ", [1, 2]]]},
+        # a THREE-qubit depolarizing channel (63 Pauli terms + identity = 64 branches), non-ascending qubits
+        {"n": 3, "gates": [["H", [0]], ["CNOT", [0, 1]], ["RX", [2], [0.5]], ["chan", "depol", [2, 0, 1], 2], ["S", [1]]]},
+        {"n": 4, "gates": [["H", [3]], ["S", [3]], ["H", [1]], ["chan", "depol", [0, 1, 2], 3], ["CNOT", [3, 0]]]},
     ]
     cases = list(fixed)
     for t in range(count):
@@ -1125,9 +1128,10 @@ def dm_case_diff(case):
 def gen_dm_case(rng):
     n = rng.randint(2, 4)
     gs = []
+    arity = dict(TRAJ_ARITY, TOFFOLI=3)
     for _ in range(rng.randint(3, 8)):
-        name = rng.choice([g for g in TRAJ_ARITY if TRAJ_ARITY[g] <= n])
-        gs.append([name, rng.sample(range(n), TRAJ_ARITY[name])] + ([[rng.choice([0.5, 1.5, 2.5])]] if name in TRAJ_PARAM else []))
+        name = rng.choice([g for g in arity if arity[g] <= n])
+        gs.append([name, rng.sample(range(n), arity[name])] + ([[rng.choice([0.5, 1.5, 2.5])]] if name in TRAJ_PARAM else []))
     D = default_opts()
     rules = []
     for _ in range(rng.randint(1, 3)):
@@ -1138,7 +1142,7 @@ def gen_dm_case(rng):
             err = [t, rng.choice([1, 2, 3])]
         else:
             err = [t, rng.randrange(len(D[t]))]
-        key = rng.choice([None, "H", "S", "RX", "CNOT", "CZ"])
+        key = rng.choice([None, "H", "S", "RX", "CNOT", "CZ", "TOFFOLI", "TOFFOLI"])
         q = rng.choice([None, rng.randrange(n), rng.randrange(n)])
         rules.append({"key": key, "err": err, "qubits": q, "conds": None})
     return {"n": n, "dm": True, "gates": gs, "customs": [], "rules": rules}
@@ -1151,6 +1155,9 @@ def dm_reference_test(run, rng, count):
     the unchanged tree (a C04 finding), so it cannot serve as a reference here."""
     fixed = [{"n": 2, "dm": True, "customs": [], "gates": [["RX", [0], [0.5]], ["H", [1]], ["RX", [0], [1.5]]],
               "rules": [{"key": "H", "err": ["depol", 2], "qubits": None, "conds": None}]},
+             # DepolarizingError on a three-qubit gate: the Pauli mixture (63 terms) against the closed-form DM path
+             {"n": 4, "dm": True, "customs": [], "gates": [["H", [0]], ["S", [0]], ["H", [2]], ["RX", [3], [0.5]], ["TOFFOLI", [2, 0, 3]]],
+              "rules": [{"key": "TOFFOLI", "err": ["depol", 2], "qubits": None, "conds": None}]},
              {"n": 3, "dm": True, "customs": [], "gates": [["H", [0]], ["S", [0]], ["H", [2]], ["CNOT", [2, 1]]],
               "rules": [{"key": "CNOT", "err": ["depol", 3], "qubits": None, "conds": None}]}]
     cases = fixed + [gen_dm_case(rng) for _ in range(count)]
@@ -1173,6 +1180,46 @@ def dm_reference_test(run, rng, count):
                      {"case": case, "max_abs_diff": d, "queue": names})
     run.notes["dm_reference_channels"] = kinds
     return worst
+
+
+# ------------------------------------------------------------------ DepolarizingChannel = the documented Pauli mixture
+def depolarizing_mixture_check(run):
+    """DepolarizingChannel(qubits, lam) on k = 1..4 qubits (non-ascending) must be the mixture the trajectory
+    simulator samples: ALL 4^k - 1 non-identity Pauli strings, each with weight lam / 4^k (so that it equals
+    (1 - lam) rho + lam Tr_q(rho) x I/2^k, the closed form of the density-matrix path)"""
+    from qibo import gates
+    P = {"I": np.eye(2), "X": np.array([[0, 1], [1, 0]]), "Y": np.array([[0, -1j], [1j, 0]]), "Z": np.diag([1, -1])}
+    b = backend()
+    for k, qs in ((1, (1,)), (2, (2, 0)), (3, (2, 0, 1)), (4, (3, 1, 0, 2))):
+        lam = 0.25
+        run.case(["depolarizing_mixture", k])
+        try:
+            ch = gates.DepolarizingChannel(qs, lam)
+            strings = ["".join(t) for t in itertools.product("IXYZ", repeat=k)][1:]
+            why = []
+            if len(ch.gates) != 4 ** k - 1 or len(ch.coefficients) != 4 ** k - 1:
+                why.append(f"{len(ch.gates)} terms instead of {4 ** k - 1}")
+            if any(abs(float(c) - lam / 4 ** k) > 1e-15 for c in ch.coefficients):
+                why.append(f"weights {sorted(set(float(c) for c in ch.coefficients))[:3]} instead of lam/4^k = {lam / 4 ** k}")
+            if not why:
+                n = max(qs) + 1
+                have = [embed_op(np.asarray(g.matrix(b)), list(g.qubits), n) for g in ch.gates]
+                used = set()
+                for s_ in strings:
+                    M = np.array([[1]])
+                    for c in s_:
+                        M = np.kron(M, P[c])
+                    E = embed_op(M, list(qs), n)
+                    j = next((j for j, H in enumerate(have) if j not in used and np.abs(H - E).max() < 1e-15), None)
+                    if j is None:
+                        why.append(f"the Pauli string {s_} on qubits {qs} is missing from the mixture")
+                        break
+                    used.add(j)
+        except Exception as e:
+            why = [f"raises {type(e).__name__}: {e}"]
+        if why:
+            run.find(f"depolarizing:mixture:k={k}", "DepolarizingChannel is not the documented mixture of all non-identity Pauli strings "
+                     "with weight lam/4^k: " + "; ".join(why), {"qubits": list(qs), "lam": lam, "why": why})
 
 
 # ------------------------------------------------------------------ IBMQ documented readout convention (test level)
@@ -1304,6 +1351,7 @@ def main(run):
     run.notes["stream_pauli"] = pauli_cases(run, rng, n_pauli)
     run.notes["trajectory_worst_abs_diff"] = trajectory_test(run, rng, n_traj)
     run.notes["dm_reference_worst_abs_diff"] = dm_reference_test(run, rng, 400 if thorough else 120)
+    depolarizing_mixture_check(run)
     run.notes["ibmq_readout_doc_convention_ok"] = ibmq_readout_convention(run)
     run.notes["ibmq_scalar_readout_multiqubit_measurement_ok"] = ibmq_scalar_readout(run)
     return run.finish(rule=RULE)
@@ -1312,6 +1360,9 @@ def main(run):
 def replay(run, data):
     rp = data.get("replay", {})
     key = data.get("key", "")
+    if key.startswith("depolarizing:"):
+        depolarizing_mixture_check(run)
+        return run.finish(rule="replay of one recorded case")
     if key.startswith("trajectory:"):
         d, total = traj_case(rp["case"])
         if d > 1e-12 or abs(total - 1) > 1e-12:
